@@ -1,4 +1,5 @@
 import UtilModel.Core.Driver
+import UtilModel.Core.DriverH
 import UtilModel.Once.Model
 import UtilModel.Once.Monitors
 import UtilModel.Memo.Model
@@ -7,6 +8,6 @@ open UtilModel
 
 def main (args : List String) : IO UInt32 :=
   driverMain [
-    mkEntry "once" Once.model Once.Obs.parse Once.onceMons (cap := 3000),
-    mkEntry "memo" Memo.model Memo.Obs.parse Memo.memoMons (cap := 3000)
+    mkEntryH "once" Once.model Once.Obs.parse Once.onceMons,
+    mkEntryH "memo" Memo.model Memo.Obs.parse Memo.memoMons
   ] args
